@@ -28,6 +28,7 @@ def agg_fields(prog, body_key, adt, chk, rule):
 
 
 def run(prog, chk, tier):
+    AE.DEEP[0] = (tier == "thorough")
     chk.explanation = (
         "write-once(StunRequestState.{bytes,from,to,transport,transaction_id}): never written, mutably borrowed or moved out "
         "after construction; StunRequestState is constructed only in ::new. Provenance decided from the abstract "
